@@ -12,6 +12,7 @@
 //   - Get of an owned buffer = the pool handed one buffer to two owners,
 //   - VerifPoolUse (called by the harness where it sees a buffer in use, e.g. in WriteTo)
 //     on a free buffer = use after recycle.
+//
 // Findings are collected as strings "<kind>: <detail>", never panics.
 package kcp
 
@@ -258,6 +259,6 @@ func VerifPoolEvents() []VerifPoolEvent {
 	return append([]VerifPoolEvent(nil), verifPool.log...)
 }
 
-// VerifPoolGet / VerifPoolPut are defaultBufferPool.Get / Put for harness-driven sequences.
-func VerifPoolGet() []byte         { return defaultBufferPool.Get() }
-func VerifPoolPut(buf []byte) error { return defaultBufferPool.Put(buf) }
+// VerifPoolAcquire / VerifPoolRelease are defaultBufferPool.Get / Put for harness-driven sequences.
+func VerifPoolAcquire() []byte          { return defaultBufferPool.Get() }
+func VerifPoolRelease(buf []byte) error { return defaultBufferPool.Put(buf) }
